@@ -147,11 +147,16 @@ class Real:
     """A materialised state: scratch repo + what the operations printed."""
 
     def __init__(self, s, out_dir=None):
+        foreign = False
+        if out_dir == "@foreign-cwd":
+            out_dir, foreign = None, True
         self.s = s
         self.r = sc.Repo(s, "r", TARGETS, commands={"a": {"build": "x"}, "b": {"build": "x"}},
                          cfg_extra={"out_dir": out_dir} if out_dir else None,
                          files={"b/keep.txt": "keep\n", "a/keep.txt": "keep\n",
                                 ".gitignore": "monorail-out\n*.log\n" + ("%s\n" % out_dir.split("/")[0] if out_dir else "")})
+        if foreign:
+            self.elsewhere = self.r.foreign_cwd()
         self.commit_ids = [self.r.head()]
         self.last_update = None   # checkpoint object printed by the last successful update
         self.update_defects = []
@@ -757,6 +762,10 @@ def state_task(task):
             v, evals, obs = inv_c07(model, real, ops, tier)
         else:
             v, evals, obs = inv_c05(model, real, tier)
+        if getattr(real, "elsewhere", None) and prop == "C19":
+            f = os.path.join(real.elsewhere, "monorail-out", "tracking", "unrelated.txt")
+            if not os.path.isfile(f):
+                v.append(("unrelated-directory-modified", "invoked with -f from another directory: that directory's own monorail-out was modified after %s" % ops))
         return {"violations": [{"sig": sig, "detail": d, "rank": len(ops), "case": {"ops": ops, "out_dir": out_dir}} for sig, d in v],
                 "evals": evals, "obs": obs, "nontrivial": 1 if (model.cp is not None and model.changed_vs_head()) else 0}
     except common.EngineError as e:
@@ -857,6 +866,13 @@ def bfs(prop, tier, depth, wall_cap=None):
             agg["evaluations"] += r["evals"]
             agg["violations"].extend(r["violations"])
         agg["custom_out_dir_cases"] = len(seqs)
+        # the same sequences with monorail invoked as `-f <abs path>` from a different directory
+        for r in common.pmap(state_task, [(prop, tier, ops, "@foreign-cwd") for ops in seqs]):
+            if "engine_error" in r:
+                raise common.EngineError(r["engine_error"])
+            agg["evaluations"] += r["evals"]
+            agg["violations"].extend(r["violations"])
+        agg["foreign_cwd_cases"] = len(seqs)
     if prop in ("C07", "C19", "C02"):
         counts = [1, 15, 16, 17, 40] if tier == "quick" else [1, 2, 7, 15, 16, 17, 31, 32, 33, 40, 64, 65, 200, 600]
         tasks = [(n, prop) for n in counts]
